@@ -39,6 +39,51 @@ Proof.
   unfold sub64, w64. lia.
 Qed.
 
+(* SCTE35.SetPTS (a397833): for ANY argument, PTS() and the command's pts_time are both v mod 2^33, the state stays normal,
+   and the next encoding carries pts_time = v mod 2^33 with pts_adjustment 0 *)
+Lemma len_stb h p q : len (splice_time_bytes h p) = len (splice_time_bytes h q).
+Proof. unfold splice_time_bytes. destruct h; reflexivity. Qed.
+Lemma len_cmd_data_setpts c v : len (cmd_data (apply_cmd_op (KSetPTS v) c)) = len (cmd_data c).
+Proof.
+  destruct c as [|h p|i]; cbn [apply_cmd_op cmd_data]; [reflexivity|apply len_stb|].
+  destruct i as [eid cancel out prog imm has pts comps hasdur dur auto up an ae]. cbn [apply_ins_op]. unfold insert_data.
+  cbn [i_event_id i_cancel i_out i_program i_immediate i_has_pts i_pts i_components i_has_duration i_duration
+       i_auto_return i_unique_program_id i_avail_num i_avails_expected].
+  destruct cancel; [reflexivity|]. rewrite !len_app. destruct (prog && negb imm); [|reflexivity].
+  rewrite (len_stb has (v mod 8589934592) pts). reflexivity.
+Qed.
+Lemma normal_set_pts fs st v : normal fs st -> normal fs (apply_sig_op st (SSetPTS v)).
+Proof.
+  intros (H1 & H2 & H3 & H4 & H5 & H6 & H7 & H8 & H9 & H10 & H11 & H12 & H13).
+  assert (Hm : v mod 8589934592 < 8589934592) by (apply N.mod_lt; discriminate).
+  assert (Hmm : (v mod 8589934592) mod 8589934592 < 8589934592) by (apply N.mod_lt; discriminate).
+  unfold normal. cbn [apply_sig_op with_pts with_cmd s_tid s_protocol s_enc_alg s_cw s_tier s_pts s_cmd s_cmd_type s_descs s_other s_stuffing].
+  rewrite len_cmd_data_setpts.
+  repeat split; try assumption.
+  - destruct (s_cmd st) as [|h p|[]]; cbn [apply_cmd_op apply_ins_op cmd_pts i_pts] in *; assumption.
+  - rewrite H8. destruct (s_cmd st) as [|h p|[]]; reflexivity.
+  - destruct (s_cmd st) as [|h p|i]; cbn [apply_cmd_op normal_cmd] in *; [exact I|intros; assumption|].
+    destruct i as [eid cancel out prog imm has pts comps hasdur dur auto up an ae]. unfold normal_insert in *.
+    cbn [apply_ins_op i_event_id i_cancel i_out i_program i_immediate i_has_pts i_pts i_components i_has_duration i_duration
+         i_auto_return i_unique_program_id i_avail_num i_avails_expected] in *.
+    destruct H9 as (E & B). split; [exact E|]. intros Hc. destruct (B Hc) as (B1 & B2 & B3 & B4 & B5 & B6).
+    repeat split; try assumption; intros; try assumption; try (apply B2; assumption); try (apply B3; assumption).
+Qed.
+Theorem set_pts_encoded fs st v : normal fs st ->
+  let st' := apply_sig_op st (SSetPTS v) in
+  s_pts st' = v mod 8589934592 /\
+  fst (update_data st') = ser_section (logical fs st') /\
+  (s_cmd st <> CNull -> cmd_pts (s_cmd st') = v mod 8589934592 /\ si_pts_adj (logical fs st') = 0).
+Proof.
+  intros H st'. split; [reflexivity|]. split; [apply encode_canonical, normal_set_pts; assumption|].
+  intros Hc. assert (E : cmd_pts (s_cmd st') = v mod 8589934592).
+  { unfold st'. cbn [apply_sig_op with_cmd s_cmd]. destruct (s_cmd st) as [|h p|[]]; [congruence| |];
+      cbn [apply_cmd_op apply_ins_op cmd_pts i_pts]; apply N.mod_mod; discriminate. }
+  split; [exact E|]. unfold logical, logical0. cbn [with_crc si_pts_adj]. rewrite E.
+  unfold st'. cbn [apply_sig_op with_cmd with_pts s_pts]. unfold subtract_pts.
+  rewrite N.leb_refl. apply N.sub_diag.
+Qed.
+
 (* the object-level value setters of 0b05886: getter = truncated value = what the next encoding carries, for ANY argument *)
 Theorem set_duration_encoded i v :
   let i' := apply_ins_op (ISetDuration v) i in
